@@ -189,19 +189,22 @@ example : WB [.push, .push, .pop, .beginMarked "p" true none,
 
 /-! ## The caches are sound -/
 
-/-- **cache_sound_partial**: for every call sequence (well bracketed or not) that does not change colour or alpha
-behind the caches' back — no `set_color_space` / `set_color_special`, no `set_state` with a dictionary that sets `ca` or
-`CA` (`Call.cacheSafe`) — and whose colours convert consistently (`Consistent`: tinycss2's conversion is a function of
-the colour), if the real emission (setters skipped on a cache hit, `pop_state` dropping an empty `q`, `begin_text`
-merging into the previous text object and restoring `_old_font`) succeeds, then the cache-free reference emission
-succeeds with the same resource dictionary, and the reference graphics-state interpreter sees **the same painting
-operators under the same fill colour, stroke colour, fill alpha, stroke alpha and font** in both streams: every fill,
-stroke, glyph run, XObject and shading is executed under exactly what the caller last requested.
+/-- **cache_sound** (full strength for everything WeasyPrint's drawing code calls through `Stream`'s own setters,
+since the repair of finding `alpha-state-stale-cache`): for every call sequence (well bracketed or not) — `set_color`,
+`set_alpha`, `set_font_size`, `push_state` / `pop_state`, text objects, marked content, transforms, XObjects, shadings,
+blend modes, **`set_alpha_state` (soft masks of mask-border, gradients and SVG masks: `Call.softMaskState`)**, and every
+pass-through pydyf method — whose colours convert consistently (`Consistent`: tinycss2's conversion is a function of the
+colour), if the real emission (setters skipped on a cache hit, `pop_state` dropping an empty `q`, `begin_text` merging
+into the previous text object and restoring `_old_font`) succeeds, then the cache-free reference emission succeeds with
+the same resource dictionary, and the reference graphics-state interpreter sees **the same painting operators under the
+same fill colour, stroke colour, fill alpha, stroke alpha and font** in both streams: every fill, stroke, glyph run,
+XObject and shading is executed under exactly what the caller last requested.
 
-Full statement (no `cacheSafe` hypothesis): **false of the current code** — `Witness.alpha_state_stale_cache`:
-`Stream.set_alpha_state` emits an ExtGState with `ca 1` without touching `_current_alpha`
-(known finding `alpha-state-stale-cache`). -/
-theorem cache_sound_partial (mark : Bool) (r : Res) (calls : List Call)
+`Call.cacheSafe` only excludes the three *raw* pydyf-level setters that bypass the caches by construction
+(`set_color_space`, `set_color_special`, a bare `set_state` with a `ca` / `CA` dictionary — the latter has no caller
+left outside `set_alpha_state`; the first two are scoped by `cache_sound_scoped` in Props/C16Cache.lean);
+`Witness.bare_set_state_still_stale` shows the hypothesis cannot be dropped for them. -/
+theorem cache_sound (mark : Bool) (r : Res) (calls : List Call)
     (hsafe : ∀ c ∈ calls, c.cacheSafe = true) (hcons : Consistent (callColours calls))
     (sc' : SState) (r' : Res) (hrun : runS r { mark := mark } calls = .ok (sc', r')) :
     ∃ sn', runNaive r { mark := mark } calls = .ok (sn', r') ∧ paints sc'.rops = paints sn'.rops ∧
@@ -210,11 +213,11 @@ theorem cache_sound_partial (mark : Bool) (r : Res) (calls : List Call)
     (fun col st h => mem_callColours calls col st h) (Sim.init _ r mark) sc' r' hrun
   exact ⟨sn', hn, hsim.p, hsim.g⟩
 
-/-- Non-vacuity: the hypotheses hold for a sequence with cache hits on colour, alpha and font, an empty `stacked`
-and two merged text runs. -/
+/-- Non-vacuity: the hypotheses hold for a sequence with cache hits on colour, alpha and font, an empty `stacked`,
+a soft mask (`set_alpha_state`) between two texts of the same translucent colour, and two merged text runs. -/
 example : (∀ c ∈ ([.push, .push, .pop,
       .setColor ⟨"srgb", .flt 1, .flt 0, .flt 0, .flt (1/2), .flt 1, .flt 0, .flt 0⟩ false, .beginText,
-      .setFont "F" (.int 12), .raw .showText [] false "<0041>", .endText,
+      .setFont "F" (.int 12), .raw .showText [] false "<0041>", .endText, .softMaskState,
       .setColor ⟨"srgb", .flt 1, .flt 0, .flt 0, .flt (1/2), .flt 1, .flt 0, .flt 0⟩ false, .beginText,
       .setFont "F" (.int 12), .raw .showText [] false "<0042>", .endText, .pop] : List Call), c.cacheSafe = true) ∧
     Consistent (callColours [.setColor ⟨"srgb", .flt 1, .flt 0, .flt 0, .flt (1/2), .flt 1, .flt 0, .flt 0⟩ false,
@@ -222,7 +225,7 @@ example : (∀ c ∈ ([.push, .push, .pop,
   constructor
   · intro c hc
     simp only [List.mem_cons, List.mem_nil_iff, or_false] at hc
-    rcases hc with rfl | rfl | rfl | rfl | rfl | rfl | rfl | rfl | rfl | rfl | rfl | rfl | rfl | rfl <;> rfl
+    rcases hc with rfl | rfl | rfl | rfl | rfl | rfl | rfl | rfl | rfl | rfl | rfl | rfl | rfl | rfl | rfl <;> rfl
   · intro c c' hc hc' _
     simp [callColours] at hc hc'
     subst hc hc'
@@ -411,18 +414,64 @@ theorem page_boxes_nested (zoom : Rat) (p : PageGeom) (hz : 0 ≤ zoom)
   have b2 := Rat.mul_nonneg h2 hs
   have b3 := Rat.mul_nonneg h3 hs
   have b4 := Rat.mul_nonneg h4 hs
-  have m1 := minR_le_right 10 (p.bleedLeft * (zoom * (3 / 4)))
-  have m2 := minR_le_right 10 (p.bleedTop * (zoom * (3 / 4)))
-  have m3 := minR_le_right 10 (p.bleedRight * (zoom * (3 / 4)))
-  have m4 := minR_le_right 10 (p.bleedBottom * (zoom * (3 / 4)))
-  have n1 := minR_nonneg 10 _ (by decide +kernel) b1
-  have n2 := minR_nonneg 10 _ (by decide +kernel) b2
-  have n3 := minR_nonneg 10 _ (by decide +kernel) b3
-  have n4 := minR_nonneg 10 _ (by decide +kernel) b4
+  have hcap : 0 ≤ 10 * zoom := Rat.mul_nonneg (by decide +kernel) hz
+  have m1 := minR_le_right (10 * zoom) (p.bleedLeft * (zoom * (3 / 4)))
+  have m2 := minR_le_right (10 * zoom) (p.bleedTop * (zoom * (3 / 4)))
+  have m3 := minR_le_right (10 * zoom) (p.bleedRight * (zoom * (3 / 4)))
+  have m4 := minR_le_right (10 * zoom) (p.bleedBottom * (zoom * (3 / 4)))
+  have n1 := minR_nonneg (10 * zoom) _ hcap b1
+  have n2 := minR_nonneg (10 * zoom) _ hcap b2
+  have n3 := minR_nonneg (10 * zoom) _ hcap b3
+  have n4 := minR_nonneg (10 * zoom) _ hcap b4
   simp only [pdfPage]
   refine ⟨?_, ?_, ?_, ?_, ?_, ?_, ?_, ?_⟩ <;> grind
 
 example : (pdfPage 2 ⟨100, 100, 10, 10, 10, 10⟩).trimBox = ⟨0, 0, 150, 150⟩ := by
   rw [(page_boxes _ _).1]; congr 1 <;> decide +kernel
+
+/-- A rectangle scaled about the origin. -/
+def Box4.scale (z : Rat) (b : Box4) : Box4 := ⟨z * b.x0, z * b.y0, z * b.x1, z * b.y1⟩
+
+private theorem minR_scale (z a b : Rat) (hz : 0 ≤ z) : minR (z * a) (z * b) = z * minR a b := by
+  unfold minR
+  by_cases h : a ≤ b
+  · have : z * a ≤ z * b := Rat.mul_le_mul_of_nonneg_left h hz
+    simp [h, this]
+  · by_cases hz0 : z = 0
+    · subst hz0; simp
+    · have hzpos : 0 < z := by
+        rcases Rat.le_iff_lt_or_eq.mp hz with h' | h'
+        · exact h'
+        · exact absurd h'.symm hz0
+      have hlt : b < a := Rat.not_le.mp h
+      have : ¬ z * a ≤ z * b := by
+        intro hle
+        have := Rat.mul_lt_mul_of_pos_left hlt hzpos
+        exact absurd hle (Rat.not_le.mpr this)
+      simp [h, this]
+
+/-- **page_boxes_zoom** (full strength since the repair that scales the 10pt BleedBox cap — and, earlier, the bleed —
+with `zoom`): for every page geometry and every `zoom ≥ 0`, *all three* page boxes of the zoomed document are the page
+boxes of the unzoomed document scaled by `zoom`: MediaBox = (page size + bleed) × 0.75 × zoom, and the same for
+TrimBox and BleedBox.  (Before the repairs only the MediaBox was.) -/
+theorem page_boxes_zoom (zoom : Rat) (hz : 0 ≤ zoom) (p : PageGeom) :
+    (pdfPage zoom p).mediaBox = Box4.scale zoom (pdfPage 1 p).mediaBox ∧
+    (pdfPage zoom p).trimBox = Box4.scale zoom (pdfPage 1 p).trimBox ∧
+    (pdfPage zoom p).bleedBox = Box4.scale zoom (pdfPage 1 p).bleedBox := by
+  have e : ∀ b : Rat, b * (zoom * (3 / 4)) = zoom * (b * (1 * (3 / 4))) := by intro b; grind
+  have c : (10 : Rat) * zoom = zoom * (10 * 1) := by grind
+  have m := fun b : Rat => minR_scale zoom (10 * 1) (b * (1 * (3 / 4))) hz
+  simp only [pdfPage, Box4.scale]
+  refine ⟨?_, ?_, ?_⟩
+  · congr 1 <;> grind
+  · congr 1 <;> grind
+  · rw [e p.bleedLeft, e p.bleedTop, e p.bleedRight, e p.bleedBottom, c, m, m, m, m]
+    congr 1 <;> grind
+
+/-- Non-vacuity, on the input of the repaired defect: `@page{size:100px;bleed:20px}` at zoom 2 — the BleedBox is
+20pt (not 10pt) from the TrimBox. -/
+example : (pdfPage 2 ⟨100, 100, 20, 20, 20, 20⟩).bleedBox = ⟨-20, -20, 170, 170⟩ ∧
+    (pdfPage 1 ⟨100, 100, 20, 20, 20, 20⟩).bleedBox = ⟨-10, -10, 85, 85⟩ := by
+  constructor <;> (simp only [pdfPage, minR]; congr 1 <;> decide +kernel)
 
 end Wp.C16
